@@ -18,7 +18,7 @@
   for WIDTH/HEIGHT above `i32::MAX` (no such framebuffer fits in memory at >= 1 bit per pixel times
   2^31 columns only if HEIGHT is tiny — outside every display scale); the model compares in `Int`.
 
-  -- [V] the colour <-> raw conversions `C::into()` / `C::from(raw)` are the identity on raw values (C12's topic): carried by correspondence + oracle only
+  -- (closed) the colour <-> raw conversions `C::into()` / `C::from(raw)` lose nothing: get / set and histories restated in COLOURS for every built-in colour type in Props/C10/Colours.lean (from C12 `into_fits`, `raw_roundtrip`); the Rust-level remainder is listed there
 -/
 import EG.Lemmas.FramebufferHist
 namespace EG.C10
